@@ -407,7 +407,7 @@ func parseSubscriptArg(lex *lexer.PeekingLexer) (*SubscriptArgument, error) {
 }
 
 func nodeMetaFromPosition(pos lexer.Position) NodeMeta {
-	return NodeMeta{}
+	return NodeMeta{Line: pos.Line, Column: pos.Column}
 }
 
 func getLexerPosFromNodeMeta(meta NodeMeta) lexer.Position {
